@@ -21,6 +21,20 @@ type Script struct {
 	Written []byte
 	// WriteErr, when non-nil, is returned by every Write (nothing recorded).
 	WriteErr error
+	// Hold, when non-nil, makes Read block at the end of the script until
+	// Close is called (the peer stays connected but silent).
+	Hold     chan struct{}
+	holdOnce sync.Once
+}
+
+// NewHeld is NewScript for a peer that stays connected after its script.
+func NewHeld(chunks [][]byte) *Script { return &Script{chunks: chunks, Hold: make(chan struct{})} }
+
+// WrittenCopy returns a snapshot of what was written so far.
+func (s *Script) WrittenCopy() []byte {
+	s.mu.Lock()
+	defer s.mu.Unlock()
+	return append([]byte{}, s.Written...)
 }
 
 func NewScript(chunks [][]byte) *Script { return &Script{chunks: chunks} }
@@ -32,6 +46,11 @@ func (s *Script) Read(p []byte) (int, error) {
 		s.chunks = s.chunks[1:]
 	}
 	if len(s.chunks) == 0 {
+		if s.Hold != nil {
+			s.mu.Unlock()
+			<-s.Hold
+			s.mu.Lock()
+		}
 		return 0, io.EOF
 	}
 	n := copy(p, s.chunks[0])
@@ -49,7 +68,12 @@ func (s *Script) Write(p []byte) (int, error) {
 	return len(p), nil
 }
 
-func (s *Script) Close() error                       { return nil }
+func (s *Script) Close() error {
+	if s.Hold != nil {
+		s.holdOnce.Do(func() { close(s.Hold) })
+	}
+	return nil
+}
 func (s *Script) LocalAddr() net.Addr                { return addr{} }
 func (s *Script) RemoteAddr() net.Addr               { return addr{} }
 func (s *Script) SetDeadline(t time.Time) error      { return nil }
